@@ -101,4 +101,10 @@ def copyStepDry (absentIsOlder : Bool) (st : CopyState) (s : Src) : CopyState :=
 def mibcopyDry (absentIsOlder : Bool) (dst : List (String × Rev × Nat)) (srcs : List Src) : CopyState :=
   srcs.foldl (copyStepDry absentIsOlder) { dst := dst, cache := [] }
 
+/-- the revision of a module as the compiler reports it (`MibInfo.revision`, which `mibcopy` compares): the latest of its
+REVISION clauses, in whatever order they are written; none without a clause (`mibcopy` then takes the epoch) -/
+def moduleRevision : List Nat → Rev
+  | [] => none
+  | r :: rs => some (rs.foldl max r)
+
 end Pysmi.Cli
